@@ -209,12 +209,15 @@ def r_lookup_ast(ctx):
     ctx.rule(rid, 'typing-side lookup: get_variable searches scopes innermost-first; insert_variable writes the innermost scope; push/pop are LIFO on the same stack (both scope types)')
     fx = ctx.facts()
     gv = ctx.anchor(fx, 'ast::Scope::get_variable')
-    rets = [S(r) for k, p, r in explore(ctx, gv) if k == 'RET']
-    ctx.ob(rid, 'get_variable', rets == ['find_map(rev(iter(self.variables)), {closure#0}{identifier})'], 'get_variable = variables.iter().rev().find_map(..)', gv.where(), str(rets))
-    c0 = ctx.anchor(fx, 'ast::Scope::get_variable::{closure#0}')
-    rr = [strip(r) for k, p, r in explore(ctx, c0) if k == 'RET']
-    ok = len(rr) == 1 and is_call(rr[0], 'get') and 'HashMap' in rr[0][1] and rr[0][2][0][0] == 'param' and rr[0][2][0][1] == 1
-    ctx.ob(rid, 'get_variable:closure', ok, 'each scope is queried with map.get(identifier)', c0.where(), S(rr[0]) if rr else None)
+    # written as variables.iter().rev().find_map(|s| s.get(id)) or as the loop it stands for: the same three rows
+    from .. import guards as G
+    idn = gv.names.get(2, 'identifier')
+    IT = 'next(into_iter(rev(iter(self.variables))))'
+    GET = 'get(%s, %s)' % (IT, idn)
+    want = sorted([((IT + '=None',), 'val:None', 'None{}'), ((IT + '=Some', GET + '=Some'), 'val:Some', 'Some{%s}' % GET), ((IT + '=Some', GET + '=None'), 'loop', '')])
+    got = sorted((tuple(sorted(set(r['conds']))), r['out'], r['value']) for r in G.decision_table(ctx, gv, plain=True, table=True))
+    want = sorted((tuple(sorted(c)), o, v) for c, o, v in want)
+    ctx.ob(rid, 'get_variable', got == want, 'get_variable: scopes are visited from the last pushed to the first (variables.iter().rev()), each queried with map.get(identifier), the first hit is returned', gv.where(), str(got)[:600])
     table = {
         'ast::Scope::insert_variable': ('insert', 'expect(last_mut(self.variables), "Stack is empty")', ['identifier', 'ty']),
         'ast::Scope::push_scope': ('push', 'self.variables', None),
